@@ -173,6 +173,11 @@ def run(ctx):
                 frames = [rnd.randrange(0, 14) for _ in range(depth)]
                 n = rnd.choice([depth, depth, max(depth - 2, 0), depth + 3])
                 items.append(sample_events(w, t, frames, n=n, us=rnd.random() < 0.85, hdr=rnd.random() < 0.9, order_rnd=rnd))
+            elif r_ < 0.95:
+                # records that LOOK like announcements (same payload) but are none: unmap records, 'b' halves
+                items.append([w.unimg(t, rnd.randrange(0, 12), rnd.randrange(1, 9),
+                                      kind=rnd.choice(['DYLD_uuid_unmap_a', 'DYLD_uuid_unmap_a', 'DYLD_uuid_unmap_b', 'DYLD_uuid_map_b',
+                                                       'DYLD_uuid_shared_cache_b']))])
             else:
                 items.append(g.ord_single(t))
         stream = [e for it in items for e in it]
